@@ -382,10 +382,11 @@ impl FootprintGuard {
                 !footprint.e_write.iter().any(|k| k.warp_id != warp_id),
                 "FootprintGuard::new: rule '{rule_name}' has cross-warp entries in e_write (expected warp {warp_id:?})"
             );
-            assert!(
-                !footprint.a_read.iter().any(|k| k.owner.warp_id() != warp_id),
-                "FootprintGuard::new: rule '{rule_name}' has cross-warp entries in a_read (expected warp {warp_id:?})"
-            );
+            // `a_read` is deliberately not asserted to be warp-local: for a rewrite inside a
+            // descended instance `Engine::apply_in_warp` itself adds the parent-warp
+            // descent-chain slots (Stage B1 law) to `a_read`. Those entries matter to the
+            // scheduler only; the guard filters them out below, so an executor still cannot
+            // read an attachment outside its own instance.
             assert!(
                 !footprint.a_write.iter().any(|k| k.owner.warp_id() != warp_id),
                 "FootprintGuard::new: rule '{rule_name}' has cross-warp entries in a_write (expected warp {warp_id:?})"
